@@ -1331,7 +1331,8 @@ def build_operator_operand_fixup(capture_error_state):
                 if isinstance(result, complex):
                     # negative number to a fractional power
                     return NUM_ERROR
-                float(result)  # OverflowError if not representable
+                if is_number(result):
+                    float(result)  # OverflowError if not representable
                 return result
             else:
                 return PYTHON_AST_OPERATORS[op](left_op, right_op)
